@@ -530,6 +530,59 @@ theorem glued_core_value_with_equals_pinned_counterexample :
     (presplit m "-Fx=y".toList).toOption = some ("-F".toList, ["x=y".toList]) ∧ beforeEq "-Fx=y".toList = "-Fx".toList := by
   decide
 
+/-! ## Short blocks are read in their own context; dash-like values are values -/
+
+/-- SPLIT DECISIONS HAVE NO MEMORY.  How a token is pre-split (`=` split, glued value vs. block of Boolean shorts) depends
+    only on the machine's state, whether something is already unparsed, the CURRENT context and the core context —
+    not on what earlier contexts of the same command line looked like (finished contexts, current flag, registry, …).
+    So `-fab` after `build` and `-fab` after `deploy` are each read with the flags of their own task. -/
+theorem presplit_depends_on_current_context (m m' : M) (t : Tok) (h1 : m'.st = m.st) (h2 : m'.unparsed = m.unparsed)
+    (h3 : m'.cur = m.cur) (h4 : m'.initial = m.initial) (h5 : m'.curIsInitial = m.curIsInitial) :
+    presplit m' t = presplit m t := by
+  have hc : m'.ctx = m.ctx := by unfold M.ctx; rw [h3, h4, h5]
+  unfold presplit isGlued splitShort gluedFlag
+  rw [h1, h2, hc, h4, h5]
+
+/-- … and so does the decision whether a split is kept while an optional value is pending (given the same pending flag) -/
+theorem keepSplit_depends_on_current_context (m m' : M) (tok : Tok) (h3 : m'.cur = m.cur) (h4 : m'.initial = m.initial)
+    (h5 : m'.curIsInitial = m.curIsInitial) (h6 : m'.flag = m.flag) : keepSplit m' tok = keepSplit m tok := by
+  have hc : m'.ctx = m.ctx := by unfold M.ctx; rw [h3, h4, h5]
+  unfold keepSplit M.coreFlagInTask M.flagArg
+  rw [hc, h4, h5, h6]
+
+/-- the same letter in two contexts of ONE command line, with flags of different kinds: in `b` the short `-F` is a Boolean
+    flag of the task (shadowing the core value flag `-F`, i.e. `--list-format`), `d` does not declare it -/
+def crossReg : List Ctx :=
+  [c18Ctx "b" [{ names := ["F".toList], kind := .bool, default := .b false }, { names := ["a".toList], kind := .bool, default := .b false }],
+   c18Ctx "d" [{ names := ["x".toList], kind := .bool, default := .b false }]]
+
+/-- `b -Fa d -Fa` = `-F a b -F -a d`, in both orders: each block is read in its own context -/
+theorem short_block_read_in_its_own_context :
+    effect (programParse coreCtx crossReg (argvOf ["b", "-Fa", "d", "-Fa"])) =
+      effect (programParse coreCtx crossReg (argvOf ["-F", "a", "b", "-F", "-a", "d"])) ∧
+    effect (programParse coreCtx crossReg (argvOf ["d", "-Fa", "b", "-Fa"])) =
+      effect (programParse coreCtx crossReg (argvOf ["-F", "a", "d", "b", "-F", "-a"])) ∧
+    (programParse coreCtx crossReg (argvOf ["b", "-Fa", "d", "-Fa"])).toOption.map
+        (fun r => (r.core.valueOf "list-format".toList, r.tasks.map (fun c => c.args.map Arg.value))) =
+      some (.s "a".toList, [[.b true, .b true], [.b false]]) := by decide
+
+/-- A VALUE THAT LOOKS LIKE THE SENTINEL IS A VALUE.  `--name=--`, `-n--`, core `--hide=--` (before or inside the task) store
+    "--" verbatim; the later task is intact; the remainder is what follows the first BARE `--` token of the command line. -/
+theorem dash_value_verbatim :
+    (programParse coreCtx c18Reg (argvOf ["t1", "--name=--", "t2", "x", "--", "r", "--", "-e"])).toOption.map
+        (fun r => (r.tasks.map (fun c => c.args.map Arg.value), r.remainder)) =
+      some ([[.b false, .s "--".toList], [.s "x".toList, .b false]], "r -- -e".toList) ∧
+    (programParse coreCtx c18Reg (argvOf ["t1", "-n--", "t2", "x"])).toOption.map
+        (fun r => (r.tasks.map (fun c => c.args.map Arg.value), r.remainder)) =
+      some ([[.b false, .s "--".toList], [.s "x".toList, .b false]], []) ∧
+    (programParse coreCtx c18Reg (argvOf ["t1", "--hide=--", "t2", "x"])).toOption.map
+        (fun r => (r.core.valueOf "hide".toList, r.tasks.length, r.remainder)) = some (.s "--".toList, 2, []) ∧
+    effect (programParse coreCtx c18Reg (argvOf ["t1", "--hide=--", "t2", "x"])) =
+      effect (programParse coreCtx c18Reg (argvOf ["--hide=--", "t1", "t2", "x"])) := by decide
+
+/-- `remainder_verbatim` applies to such command lines: a token that merely CONTAINS `--` is not the sentinel -/
+example : ['-', '-'] ∉ argvOf ["t1", "--name=--", "-n--", "--hide=--", "---", "-"] := by decide
+
 /-- hypotheses of `core_flag_placement_invariant_partial` are satisfiable: `-e` in `t2`'s context with `pos` still missing -/
 example : ∃ i a a', assoc? "-e".toList coreCtx.flags = some i ∧ coreCtx.args[i]? = some a ∧
     a.spec.names.headD [] ≠ "help".toList ∧ a.takesValue = false ∧ a.setValue (.b true) = .ok a' ∧
